@@ -62,6 +62,13 @@ class InputFactory:
             kind = sort[0]
             if kind == 'const':
                 return SymInput(sort, sort[1], lambda m: {'const': repr(sort[1])})
+            if kind == 'oneof':
+                # ('oneof', [v0, v1, ...]): one of the given constants (one path each)
+                vals = list(sort[1])
+                for v in vals[:-1]:
+                    if I.branch(I.fresh_bool(hint + '_is_' + str(v))):
+                        return SymInput(sort, v, lambda m, v=v: {'const': repr(v)})
+                return SymInput(sort, vals[-1], lambda m: {'const': repr(vals[-1])})
             if kind == 'list':
                 # ('list', elem_sort, n) fixed length list
                 subs = [self.make(sort[1], f'{hint}{k}') for k in range(sort[2])]
